@@ -194,6 +194,41 @@ func SqueezeBlank(src string, toks []SimpleToken, r *run.Rng, k int) string {
 	return sb.String()
 }
 
+// GlueTemplateClose removes the blankspace between a '>' token and a directly following '=' or '>' token, each site
+// with probability 1/2. In a valid program two such tokens separated by blankspace can only be the close of a template
+// list followed by an initialiser / assignment ('vec3<f32> =' becomes 'vec3<f32>=') or by the close of the enclosing
+// template list ('vec2<u32> >' becomes 'vec2<u32>>'), so the edit is meaning-neutral: template list discovery closes the
+// list at the first '>' whatever follows it. Returns the edited source and the number of sites glued.
+func GlueTemplateClose(src string, toks []SimpleToken, r *run.Rng) (string, int) {
+	drop := map[int]bool{}
+	for b := 0; b+1 < len(toks); b++ {
+		if toks[b].Text != ">" || (toks[b+1].Text != "=" && toks[b+1].Text != ">") {
+			continue
+		}
+		gap := src[toks[b].End:toks[b+1].Off]
+		if gap == "" || strings.TrimSpace(gap) != "" {
+			continue
+		}
+		if r.Chance(1, 2) {
+			drop[b] = true
+		}
+	}
+	if len(drop) == 0 {
+		return src, 0
+	}
+	var sb strings.Builder
+	pos := 0
+	for i, t := range toks {
+		sb.WriteString(src[pos:t.End])
+		pos = t.End
+		if drop[i] {
+			pos = toks[i+1].Off
+		}
+	}
+	sb.WriteString(src[pos:])
+	return sb.String(), len(drop)
+}
+
 // TokensOf converts the printer's token table to SimpleTokens.
 func TokensOf(p *Printed) []SimpleToken {
 	out := make([]SimpleToken, len(p.Tokens))
